@@ -10,6 +10,9 @@ rc = 0
 steps = [
     (["cargo", "kani", "--only-codegen", "-Z", "stubbing", "--harness", "k13_1_reader_ops", "--target-dir", os.path.join(W, "kani-target")], os.path.join(V, "kani-harness")),
     (["cargo", "build", "--offline", "--target-dir", os.path.join(W, "replay-target")], os.path.join(V, "replay")),
+    (["cargo", "build", "--offline", "--release", "--target-dir", os.path.join(W, "replay-target")], os.path.join(V, "replay")),
+    # dependencies of the MIR dump (Engine M); the dump itself is redone from the working tree on every check
+    (["cargo", "+nightly", "build", "--offline", "--lib", "--target-dir", os.path.join(W, "mir-target")], "/repo"),
 ]
 for cmd, cwd in steps:
     print("$", " ".join(cmd), flush=True)
